@@ -38,6 +38,7 @@ def gen_config(g):
     else:
         faults = [f for f in all_faults if g.random() < 0.7] or ["rng.draw"]
     return {"clients": g.randint(1, 4), "length": g.randint(8, 60), "pmax": g.randint(1, 7),
+            "huge": g.random() < 0.04,     # sizes beyond any small-case threshold (32, 50, 64, 100, 128)
             "seeds": seeds, "apis": apis, "faults": faults, "nsig": g.randint(3, 8),
             "late_bias": g.choice([0.5, 0.85, 1.0])}
 
@@ -50,6 +51,9 @@ def gen_call(g, cfg, api, seed, mid=None):
     """One call record (without client) for `api` with random arguments."""
     pmax = cfg["pmax"]
     p = g.randint(1, pmax)
+    huge = cfg.get("huge") and g.random() < 0.5
+    if huge:
+        p = g.choice([33, 51, 64, 65, 100, 129])
     rec = {"op": "call", "api": api, "seed": seed}
     if api == "lganm.new":
         spec = G.lganm_spec(g, p, cfg["seeds"], force_ranges=True)
@@ -72,18 +76,18 @@ def gen_call(g, cfg, api, seed, mid=None):
         rec["args"] = {"n": rand_n(g), "do": G.anm_ivs(g, p), "shift": G.anm_ivs(g, p),
                        "noise": G.anm_ivs(g, p)}
     elif api == "gen.dag_avg_deg":
-        p = g.randint(2, max(2, pmax + 3))
+        p = g.randint(2, max(2, pmax + 3)) if not huge else p
         lo = G.r2(g, 0.1, 2)
         rec["args"] = {"p": p, "k": G.r2(g, 0.5, min(3.0, p - 1)), "w_min": lo,
                        "w_max": round(lo + G.r2(g, 0, 2), 2), "return_ordering": g.random() < 0.5,
                        "debug": g.random() < 0.1}
     elif api == "gen.dag_full":
-        p = g.randint(1, pmax + 3)
+        p = g.randint(1, pmax + 3) if not huge else p
         lo = G.r2(g, 0.1, 2)
         rec["args"] = {"p": p, "w_min": lo, "w_max": round(lo + G.r2(g, 0, 2), 2),
                        "return_ordering": g.random() < 0.5}
     elif api == "gen.intervention_targets":
-        p = g.randint(2, 12)
+        p = g.randint(2, 12) if not huge else p
         replace = g.random() < 0.5
         if g.random() < 0.5:
             size = g.randint(1, 3)
@@ -93,15 +97,16 @@ def gen_call(g, cfg, api, seed, mid=None):
         K = g.randint(1, 6)
         rec["args"] = {"p": p, "K": K, "size": size, "replace": replace}
     elif api == "utils.split_data":
-        e = g.randint(1, 3)
+        e = g.randint(1, 3) if not huge else g.choice([1, 9, 17])
+        p = min(p, 4)
         data = []
         for _ in range(e):
             n = g.randint(2, 24)
             data.append(np.array([[G.r2(g, -5, 5) for _ in range(p)] for _ in range(n)], dtype=float).reshape(n, p))
         rec["args"] = {"data": enc(data), "ratios": g.choice(RATIOS)}
     elif api in ("utils.add_edges", "utils.remove_edges"):
-        p = g.randint(2, max(2, pmax))
-        A = G.rand_dag(g, p, weighted=g.random() < 0.5)
+        p = g.randint(2, max(2, pmax)) if not huge else min(p, 33)
+        A = G.rand_dag(g, p, weighted=g.random() < 0.5, density=(0.1 if huge else None))
         rec["args"] = {"A": enc(A), "k": g.randint(0, 4)}
     else:
         raise ValueError(api)
